@@ -20,7 +20,7 @@ MANIFEST = {
 THEOREMS = ["C02_totals_cover_positions", "C02_ledger_meaning", "C02_exact_deltas_and_dust", "C02_zero_totals_no_positions",
             "C02_initial_world", "C02_instruction_level",
             "C02_transfer_keeps_position_sums", "C02_close_removes_only_empty_positions",
-            "C02_purge_keeps_ledger", "C02_purge_effect_on_totals"]
+            "C02_purge_keeps_ledger", "C02_purge_effect_on_totals", "C02_deleverage_tx_keeps_ledger"]
 RULE = ("level B: operation sequences over 1-3 banks and 1-4 accounts on the real Bank + BankAccountWrapper (deposit/withdraw/"
         "borrow/repay/withdraw_all/repay_all/close/liquidation legs/accrue/socialise/claim/settle/sort); level C: instruction-handler "
         "sequences (deposit, withdraw(all), borrow, repay(all), close_balance, liquidate, bankruptcy, accrue, collect fees) by several "
